@@ -80,7 +80,9 @@ def cases(draw, tier):
                                           "generator"])),
             # the same call again after the table's counts were scaled in
             # place (nothing about a table may be remembered across edits)
-            "again": draw(st.sampled_from([None, None, 2, 3]))}
+            "again": draw(st.sampled_from([None, None, 2, 3])),
+            # flags spelled as numpy booleans
+            "npflag": draw(st.sampled_from([False, False, True]))}
 
 
 def strategy(tier):
@@ -177,22 +179,26 @@ def validity(ref, got, axis, n, mode, what):
 
 def run(t, case):
     call = case.get("call", "kw")
+    B = np.bool_ if case.get("npflag") else bool
     if call == "positional":
         # subsample(n, axis='sample', by_id=False, with_replacement=False,
         #           seed=None)
-        return t.subsample(case["n"], case["axis"], case["mode"] == "by_id",
-                           case["mode"] == "with", case["seed"])
+        return t.subsample(case["n"], case["axis"],
+                           B(case["mode"] == "by_id"),
+                           B(case["mode"] == "with"), case["seed"])
     if call == "generator" and case["mode"] != "with":
         from biom.util import generate_subsamples
         g = generate_subsamples(t, case["n"], case["axis"],
-                                case["mode"] == "by_id")
+                                B(case["mode"] == "by_id"))
         next(g)
         return next(g)
     kw = {"axis": case["axis"], "seed": case["seed"]}
     if case["mode"] == "with":
-        kw["with_replacement"] = True
+        kw["with_replacement"] = B(True)
     if case["mode"] == "by_id":
-        kw["by_id"] = True
+        kw["by_id"] = B(True)
+    elif case.get("npflag"):
+        kw["by_id"] = B(False)
     return t.subsample(case["n"], **kw)
 
 
@@ -241,6 +247,23 @@ def check(case, rec):
         rec.cls("subsampled-again-after-edit")
     # same seed, same result (on an independently built table)
     rec.cls("call:" + case.get("call", "kw"))
+    if case.get("call") == "generator" and mode != "with" and \
+            case["seed"] % 8 == 0:
+        # generators created afresh do not all start with the same draw
+        # (the helper takes no seed: "a new randomly subsampled table")
+        from biom import Table
+        from biom.util import generate_subsamples
+        tiny = Table(np.ones((4, 1)), ["a", "b", "c", "d"], ["s"])
+        firsts = set()
+        for _ in range(40):
+            g_ = generate_subsamples(tiny, 2, "sample", False)
+            r_ = next(g_)
+            firsts.add((tuple(str(i) for i in r_.ids(axis="observation")),
+                        tuple(r_.matrix_data.toarray().ravel().tolist())))
+        if len(firsts) < 2:
+            raise Violation("biased-draw", "40 fresh generate_subsamples() "
+                            "generators all started with the same draw %r "
+                            "(6 outcomes are equally likely)" % (firsts,))
     if case.get("call") == "generator" and mode != "with":
         return      # the helper takes no seed
     r2 = observe.snapshot(run(gen.build(case["table"]), case))
